@@ -1,6 +1,7 @@
 import Proofs.C20
 import Proofs.TieBuild
 import Proofs.TieLoopTail
+import Proofs.TieBasis
 #print axioms PV.Proofs.C20.build_inner_pos
 #print axioms PV.Proofs.C20.build_ok
 #print axioms PV.Proofs.C20.work_exact
@@ -17,3 +18,7 @@ import Proofs.TieLoopTail
 #print axioms PV.Proofs.Tie.declared_translated_looptail
 #print axioms PV.Proofs.Tie.loop_tail_tie
 #print axioms PV.Proofs.Tie.loop_tail_frame
+#print axioms PV.Proofs.Tie.declared_translated_basis
+#print axioms PV.Proofs.Tie.value_range_tie
+#print axioms PV.Proofs.Tie.clamped_tie
+#print axioms PV.Proofs.Tie.sample_tie
